@@ -36,6 +36,23 @@ CASE (plain JSON-able dict)
                         returns the calc_res values, the second produces the oracle's outcome.  With outcome failed /
                         error the task fails AFTER task.values was filled: doit still delivers the values to the tasks that
                         have it as calc_dep (model: calcResFail / Run.deliverF); the receivers are reported unmet}
+  optional TASK fields (wave 4; absent = as before):
+          'task_dep_wild': [fnmatch patterns containing `*`]   written into the task's `task_dep` list next to the literal names;
+                        Task.__init__ moves them to `wild_dep`, TaskControl.__init__ appends the matching task names in
+                        DEFINITION order (duplicates kept) after the literal / result_dep entries and before the implicit
+                        target->file_dep ones -- expand() does the same, the model sees the expansion
+          'n_actions': 2|3, 'fail_at': k     the task has several python-actions; action 0 records the start, the action that
+                        produces the oracle's outcome (index fail_at when the outcome is failed / error, else the last one)
+                        creates the targets and records the end; an action AFTER the failing one records a second start
+                        (it must never run).  One start / end per task: nothing changes for the model
+          'n_teardown': 2|3                  that many teardown callables (reporter.teardown_task is still called once)
+          'group_late': j (group only)       the dict with the group's own attributes is yielded after j of its sub-tasks
+                        instead of before the first (the group keeps its place in the definition order)
+          calc_res may carry 'uptodate': [False]|[None] (Task.update_deps -> _extend_uptodate of the RECEIVER: a False makes
+                        its get_status answer `run` whatever its own status -- expand() computes that effective status, the
+                        dispatcher itself ignores the key), 'junk' / 'setup' (unknown to update_deps: ignored), and
+                        'as_str': True (the action returns a str instead of a dict: task.values stays {} -- nothing is
+                        delivered, and a getargs from it fails)
   A 'group' entry stands for the group task doit creates implicitly when the first sub-task `g:a` is yielded; it sits
   immediately before its first sub-task in the list (that is where doit puts it); it has no actions.
 
@@ -47,6 +64,7 @@ OBS (what run_impl returns)
                      ["start",n,w] ["end",n,w]     (w = worker index; 0 for the serial runner)
   process mode: "execute" and "teardown" are dropped (they travel through a queue and race with start events).
 """
+import fnmatch
 import io
 import itertools
 import json
@@ -87,6 +105,19 @@ def target_owner(case):
     return own
 
 
+def _res_task_ids(case, cr):
+    """task ids of the `task_dep` entries of a calc result: literal names, and for an entry with `*` every task whose
+    name matches, in definition order -- what a wildcard task_dep means everywhere else in doit (TaskControl expands the
+    static ones at start-up).  NOTE: doit itself DROPS a wildcard that arrives in a calc result (open finding
+    calc-wild-dep-dropped); the harness and the model state what it should mean."""
+    idx = task_index(case)
+    out = [idx[x] for x in cr.get('task_dep', []) if '*' not in x]
+    for x in cr.get('task_dep', []):           # matches after the literal names, as for a static task_dep list
+        if '*' in x:
+            out += [j for j, s in enumerate(case['tasks']) if fnmatch.fnmatch(s['name'], x)]
+    return out
+
+
 def _set_order(items):
     """iteration order of the python `set` doit builds by adding `items` one by one (Task._expand_file_dep,
     Task._init_getargs): depends on the string hashes of *this* process, exactly as in doit"""
@@ -117,6 +148,8 @@ def expand(case):
         if t['kind'] == 'group':
             td += [j for j, s in enumerate(tasks) if s['kind'] == 'sub' and s['group'] == t['name']]
         td += [idx[x] for x in t['result_dep']]
+        for pat in t.get('task_dep_wild') or ():
+            td += [j for j, s in enumerate(tasks) if fnmatch.fnmatch(s['name'], pat)]
         su = [idx[x] for x in t['setup']]
         extra = []
         for _arg, src, _key in t['getargs']:
@@ -130,15 +163,16 @@ def expand(case):
         setup.append(su)
         calc_dep.append(sorted(set(idx[x] for x in t['calc_dep'])))
     always = bool(case.get('always'))
+    status = _effective_status(case, idx, always)
     calc_res = []
     for i, t in enumerate(tasks):
         cr = t.get('calc_res')
-        delivers = (cr is not None and t['outcome'] == 'ok' and not t['ignored']
-                    and (t['status'] == 'run' or (always and t['status'] == 'utd')))
+        delivers = (cr is not None and not cr.get('as_str') and t['outcome'] == 'ok' and not t['ignored']
+                    and (status[i] == 'run' or (always and status[i] == 'utd')))
         if not delivers:
             calc_res.append(None)
         else:
-            calc_res.append({'task': [idx[x] for x in cr.get('task_dep', [])],
+            calc_res.append({'task': _res_task_ids(case, cr),
                              'file': [own[f] for f in cr.get('file_dep', []) if f in own],
                              'calc': [idx[x] for x in cr.get('calc_dep', [])]})
     # what a calc task delivers although its execution FAILED (_process_calc_dep_results reads task.values whatever the
@@ -147,10 +181,10 @@ def expand(case):
     for i, t in enumerate(tasks):
         cr = t.get('calc_res')
         late_fail = t['outcome'] == 'saveerr' or (t.get('calc_first') and t['outcome'] in ('failed', 'error'))
-        if cr is None or not late_fail or t['kind'] == 'group':
+        if cr is None or cr.get('as_str') or not late_fail or t['kind'] == 'group':
             calc_res_fail.append(None)
         else:
-            calc_res_fail.append({'task': [idx[x] for x in cr.get('task_dep', [])],
+            calc_res_fail.append({'task': _res_task_ids(case, cr),
                                   'file': [own[f] for f in cr.get('file_dep', []) if f in own],
                                   'calc': [idx[x] for x in cr.get('calc_dep', [])]})
     if case.get('sel') is None:
@@ -171,15 +205,17 @@ def expand(case):
             s = tasks[idx[src]]
             srcs = [tasks[j] for j in task_dep[idx[src]]] if s['kind'] == 'group' else [s]
             for q in srcs:
-                runs = q['status'] == 'run' or (always and q['status'] == 'utd')
-                if not (runs and q['outcome'] == 'ok' and not q['ignored'] and key == 'v' and q['kind'] != 'group'):
+                qs = status[idx[q['name']]]
+                runs = qs == 'run' or (always and qs == 'utd')
+                if not (runs and q['outcome'] == 'ok' and not q['ignored'] and key == 'v' and q['kind'] != 'group'
+                        and not (q.get('calc_res') or {}).get('as_str')):
                     ok = False
         args_ok.append(ok)
     model = {'n': n, 'taskDep': task_dep, 'setup': setup, 'calcDep': calc_dep, 'sel': sel,
              'cont': bool(case.get('cont')), 'always': always,
              'runner': case.get('runner', 'serial'), 'nproc': int(case.get('nproc', 0)),
              'ignored': [bool(t['ignored']) for t in tasks],
-             'status': [t['status'] for t in tasks],
+             'status': status,
              'outcome': [t['outcome'] for t in tasks],
              'argsOk': args_ok,
              'teardown': [bool(t['teardown']) for t in tasks],
@@ -188,6 +224,47 @@ def expand(case):
     if any(x is not None for x in calc_res_fail):
         model['calcResFail'] = calc_res_fail        # absent = nothing of the kind (the model's default)
     return model
+
+
+def _effective_status(case, idx, always):
+    """what get_status answers for each task when select_task asks: the task's own oracle status, or `run` when a calc
+    task that DELIVERS to it (directly or through a delivered calc_dep) returned 'uptodate': [False] -- Task.update_deps
+    extends the receiver's uptodate list, and one False makes Dependency.get_status return `run` before it looks at
+    anything else.  (A task is only asked after all its calc_deps were processed; one that was not executed successfully
+    makes the receiver unmet / ignored, or -- up-to-date on a fresh DB -- has no values to deliver.)"""
+    tasks = case['tasks']
+    if not any((t.get('calc_res') or {}).get('uptodate') for t in tasks):
+        return [t['status'] for t in tasks]
+    memo, busy = {}, set()
+
+    def eff(i):
+        if i in memo:
+            return memo[i]
+        t = tasks[i]
+        if i in busy:
+            return t['status']
+        busy.add(i)
+        flip = False
+        seen, todo = set(), [idx[x] for x in t['calc_dep']]
+        while todo:
+            c = todo.pop()
+            if c in seen:
+                continue
+            seen.add(c)
+            q = tasks[c]
+            cr = q.get('calc_res')
+            if cr is None or cr.get('as_str') or q['outcome'] != 'ok' or q['ignored'] or q['kind'] == 'group':
+                continue
+            qs = eff(c)
+            if not (qs == 'run' or (always and qs == 'utd')):
+                continue
+            if any(u is False for u in cr.get('uptodate') or ()):
+                flip = True
+            todo += [idx[x] for x in cr.get('calc_dep', [])]
+        busy.discard(i)
+        memo[i] = 'run' if flip else t['status']
+        return memo[i]
+    return [eff(i) for i in range(len(tasks))]
 
 
 def dynamic_edges(model):
@@ -258,7 +335,8 @@ def gen_case(rng, n_min=3, n_max=9, runner=None, nproc=None, weights=None, p_gro
              p_dual=0.08, p_dup_sel=0.15, p_ignored=0.07, p_utd=0.18, p_error=0.07, p_failed=0.14, p_exc=0.08,
              p_teardown=0.25, p_cont=0.4, p_always=0.06, p_calc_deliver=0.85, sel_mode=None, policy=None,
              allow_cycle=False, all_ok=False, p_meta_names=0.0, p_share_lists=0.0, p_combo=0.0,
-             p_calc_then_fail=0.0):
+             p_calc_then_fail=0.0, p_wild=0.0, p_multi_action=0.0, p_multi_teardown=0.0, p_group_late=0.0,
+             p_calc_extra=0.0):
     """One random run case.  Graph: 3..9 tasks in a hidden topological order (all edges, static and delivered by calc
     results, go from later to earlier rank, so the graph is acyclic unless allow_cycle), then the definition order is
     shuffled.  Edge kinds: task_dep / setup / calc_dep / file (target->file_dep) / getargs (setup edge) / result_dep
@@ -272,7 +350,15 @@ def gen_case(rng, n_min=3, n_max=9, runner=None, nproc=None, weights=None, p_gro
     likely to be selected by name first, so that its calc_dep finishes (node woken) and then its task_dep finishes before
     the node is stepped (case['combo'] = its name); p_calc_then_fail = probability that one calc task that delivers
     something becomes a 'calc_first' task (see the case format) which mostly fails in its second action, mostly under
-    --continue (case['ctf'] = its name): doit delivers the values of the FAILED task (model: calcResFail)."""
+    --continue (case['ctf'] = its name): doit delivers the values of the FAILED task (model: calcResFail).
+    Wave-4 opt-in knobs (each a per-case probability; see the optional TASK fields in the module docstring): p_wild =
+    one or two tasks (groups included) get a wildcard task_dep pattern whose matches all have a lower rank (sometimes
+    none, sometimes tasks that are literal task_deps too); with wild deps the names are not given metacharacters;
+    p_multi_action = about half of the tasks get 2-3 python-actions, a failing one fails in a random action (first /
+    middle / last); p_multi_teardown = tasks with a teardown get 2-3 callables; p_group_late = groups with own task_dep
+    yield their attributes after some of their sub-tasks; p_calc_extra = calc results get keys the dispatcher does not
+    consume ('junk', 'setup'), 'uptodate': [None] / [False] (the latter changes the receivers' status, see
+    _effective_status; never towards a receiver whose status is `error`), or are returned as a str."""
     w = dict(DEFAULT_WEIGHTS)
     w.update(weights or {})
     n = rng.randint(n_min, n_max)
@@ -387,6 +473,54 @@ def gen_case(rng, n_min=3, n_max=9, runner=None, nproc=None, weights=None, p_gro
                     if v['name'] not in t[key]:
                         t[key].append(v['name'])
                 combo = t['name']
+    has_wild = False
+    wild_pats = None
+    if p_wild and rng.random() < p_wild:
+        pats = ['zz*']
+        for x in ranked:
+            nm = x['name']
+            if x['kind'] == 'sub':
+                base, sub = nm.split(':', 1)
+                pats += [base + ':*', '*:' + sub, base[:-1] + '*:' + sub, base + '*']
+            elif x['kind'] == 'task':
+                pats += [nm + '*', '*' + nm[1:], 't[0-%s]*' % nm[1:2], nm[0] + '*' + nm[-1]]
+        pats = sorted(set(pats))
+        wild_pats = pats
+        for _ in range(rng.choice([1, 1, 2])):
+            r = rng.randrange(1, len(ranked))
+            t = ranked[r]
+            ok = []
+            for pat in pats:
+                m = [x for x in ranked if fnmatch.fnmatch(x['name'], pat)]
+                if all(rank[x['name']] < r for x in m) and (m or rng.random() < 0.1):
+                    ok.append(pat)
+            if ok:
+                # prefer patterns that match several tasks
+                ok.sort(key=lambda q: -len([x for x in ranked if fnmatch.fnmatch(x['name'], q)]))
+                pat = ok[min(len(ok) - 1, int(abs(rng.gauss(0, len(ok) / 2.5))))]
+                if pat not in t.setdefault('task_dep_wild', []):
+                    t['task_dep_wild'].append(pat)
+                has_wild = True
+    if p_multi_action and rng.random() < p_multi_action:
+        for t in ranked:
+            if t['kind'] != 'group' and rng.random() < 0.5:
+                t['n_actions'] = rng.choice([2, 3, 3])
+                if t['outcome'] != 'ok':
+                    t['fail_at'] = rng.randrange(t['n_actions'])
+    if p_multi_teardown and rng.random() < p_multi_teardown:
+        for t in ranked:
+            if t['teardown'] and rng.random() < 0.7:
+                t['n_teardown'] = rng.choice([2, 2, 3])
+    if p_group_late and rng.random() < p_group_late:
+        for t in ranked:
+            if t['kind'] == 'group':
+                nsub_ = len([x for x in ranked if x['group'] == t['name']])
+                if not t['task_dep'] and not t.get('task_dep_wild'):
+                    low = [x for x in ranked[:rank[t['name']]] if x['group'] != t['name']]
+                    if low and rng.random() < 0.7:
+                        t['task_dep'].append(rng.choice(low)['name'])
+                if (t['task_dep'] or t.get('task_dep_wild')) and nsub_:
+                    t['group_late'] = rng.randint(1, nsub_)
     for t in ranked:
         if t['status'] == 'error':
             t['file_dep'].append('missing_%s' % t['name'].replace(':', '_'))
@@ -431,6 +565,46 @@ def gen_case(rng, n_min=3, n_max=9, runner=None, nproc=None, weights=None, p_gro
                 if k == 'calc_dep':
                     receivers.setdefault(v['name'], set()).update(rec)
         t['calc_res'] = res
+    # ---- opt-in (p_wild): a wildcard inside the task_dep a calc task delivers
+    if wild_pats is not None and rng.random() < 0.3:
+        cands = [t for t in ranked if t['calc_res'] is not None and receivers.get(t['name'])]
+        if cands:
+            t = rng.choice(cands)
+            low = min(rank[x] for x in receivers[t['name']])
+            ok = [q for q in wild_pats
+                  if [x for x in ranked if fnmatch.fnmatch(x['name'], q)]
+                  and all(rank[x['name']] < low and x['name'] != t['name'] for x in ranked
+                          if fnmatch.fnmatch(x['name'], q))]
+            if ok:
+                t['calc_res']['task_dep'].append(rng.choice(ok))
+                case['wild_calc'] = t['name']
+                has_wild = True
+    # ---- opt-in: keys of a calc result that the dispatcher does not consume
+    if p_calc_extra and rng.random() < p_calc_extra:
+        for t in ranked:
+            cr = t['calc_res']
+            if cr is None or rng.random() < 0.25:
+                continue
+            kind = rng.choice(['junk', 'junk', 'setup', 'utd_none', 'utd_false', 'utd_false', 'str'])
+            if kind == 'junk':
+                cr['junk'] = rng.choice([1, 'x', ['t0'], {'task_dep': ['t0']}])
+            elif kind == 'setup':
+                lowr = [x['name'] for x in ranked[:rank[t['name']]]]
+                if lowr:
+                    cr['setup'] = [rng.choice(lowr)]        # `setup` is not in Task._expand_map: ignored
+            elif kind == 'utd_none':
+                cr['uptodate'] = [None]
+            elif kind == 'utd_false':
+                if all(byname[x]['status'] != 'error' for x in receivers.get(t['name'], ())):
+                    cr['uptodate'] = rng.choice([[False], [False], [None, False]])
+                    # make it matter: a receiver that would be up-to-date on its own
+                    plain = [x for x in sorted(receivers.get(t['name'], ()), key=lambda q: rank[q])
+                             if byname[x]['kind'] != 'group' and byname[x]['status'] == 'run'
+                             and not (byname[x]['file_dep'] or byname[x]['getargs'] or byname[x]['result_dep'])]
+                    if plain and rng.random() < 0.6:
+                        byname[rng.choice(plain)]['status'] = 'utd'
+            else:
+                cr['as_str'] = True
     # ---- opt-in: a delivering calc task that fails AFTER its first action returned the values
     ctf = None
     if p_calc_then_fail and rng.random() < p_calc_then_fail:
@@ -514,7 +688,7 @@ def gen_case(rng, n_min=3, n_max=9, runner=None, nproc=None, weights=None, p_gro
         case['nproc'] = nproc or rng.choice([2, 3])
     case['policy'] = policy or {'kind': 'seeded', 'seed': rng.randrange(1 << 30)}
     # ---- opt-in: legal but unusual task names; shared list objects in the task dicts
-    if p_meta_names and rng.random() < p_meta_names:
+    if p_meta_names and rng.random() < p_meta_names and not has_wild:
         apply_meta_names(case, rng)
     if p_share_lists and rng.random() < p_share_lists:
         case['share'] = {'attrs': sorted(rng.sample(SHARE_ATTRS, rng.randint(1, len(SHARE_ATTRS)))),
@@ -532,6 +706,125 @@ def gen_case(rng, n_min=3, n_max=9, runner=None, nproc=None, weights=None, p_gro
                     t['calc_res'] = None
                     break
             case['model'] = expand(case)
+    return case
+
+
+def gen_scale_case(rng, n=None, shape=None, runner='thread', nproc=None, n_min=50, n_max=300, p_fail=0.02, p_utd=0.05):
+    """One LARGE structured case (coverage audit #20): 50..300 tasks, runner serial / thread / process with -n 2..8.
+    shapes: 'chain' (one task_dep chain through all tasks: the dispatcher nests as deep as the graph), 'fan_out' (one
+    root with every other task as task_dep / setup-task), 'fan_in' (everything depends on one base task: its waiting_me
+    set has n-1 members), 'layers' (layers of 4..12 tasks, each depending on 1..3 tasks of the layer below through
+    task_dep / setup / calc_dep), 'ladder' (diamonds stacked on each other), 'groups' (groups of up to 12 sub-tasks with a
+    wildcard dependency on the previous group).  A few tasks fail / are up-to-date; mostly --continue.  The selection
+    is the sink(s) or everything.  case['bigcase'] = {'shape', 'n'}."""
+    n = n or rng.randint(n_min, n_max)
+    shape = shape or rng.choice(['chain', 'fan_out', 'fan_in', 'layers', 'layers', 'ladder', 'groups'])
+    tasks = []
+
+    def add(name, kind='task', group=None):
+        t = _new_task(name, kind, group)
+        tasks.append(t)
+        return t
+    sel = None
+    if shape == 'chain':
+        for i in range(n):
+            t = add('t%d' % i)
+            if i:
+                kind = 'setup' if rng.random() < 0.15 else 'task_dep'
+                t[kind].append('t%d' % (i - 1))
+        sel = ['t%d' % (n - 1)]
+    elif shape == 'fan_out':
+        for i in range(n - 1):
+            add('t%d' % i)
+        root = add('root')
+        for i in range(n - 1):
+            root['setup' if rng.random() < 0.2 else 'task_dep'].append('t%d' % i)
+        sel = ['root']
+    elif shape == 'fan_in':
+        add('base')
+        for i in range(n - 1):
+            t = add('t%d' % i)
+            t[rng.choice(['task_dep', 'task_dep', 'setup', 'calc_dep'])].append('base')
+        sel = None
+    elif shape == 'layers':
+        prev, i = [], 0
+        while i < n:
+            width = min(n - i, rng.randint(4, 12))
+            cur = []
+            for _ in range(width):
+                t = add('t%d' % i)
+                i += 1
+                for d in rng.sample(prev, min(len(prev), rng.randint(1, 3))) if prev else []:
+                    t[rng.choice(['task_dep', 'task_dep', 'task_dep', 'setup', 'calc_dep'])].append(d)
+                cur.append(t['name'])
+            prev = cur
+        sel = list(prev) if rng.random() < 0.7 else None
+    elif shape == 'ladder':
+        prev = None
+        i = 0
+        while i < n:
+            a = add('t%d' % i)
+            i += 1
+            if prev:
+                a['task_dep'].append(prev)
+            mids = []
+            for _ in range(min(n - i, rng.randint(2, 4))):
+                m = add('t%d' % i)
+                i += 1
+                m['task_dep'].append(a['name'])
+                mids.append(m['name'])
+            if i < n and mids:
+                j = add('t%d' % i)
+                i += 1
+                j['task_dep'] += mids
+                prev = j['name']
+            else:
+                prev = mids[-1] if mids else a['name']
+        sel = [prev]
+    else:   # groups
+        g, i, prevg = 0, 0, None
+        while i < n:
+            k = min(n - i - 1, rng.randint(2, 12))
+            if k < 1:
+                add('t%d' % i)
+                i += 1
+                continue
+            grp = add('g%d' % g, 'group')
+            i += 1
+            for j in range(k):
+                sub = add('g%d:s%d' % (g, j), 'sub', 'g%d' % g)
+                i += 1
+                if prevg is not None and rng.random() < 0.4:
+                    sub['task_dep'].append(prevg)
+            if prevg is not None:
+                grp['task_dep_wild'] = ['%s:*' % prevg] if rng.random() < 0.5 else []
+                if not grp['task_dep_wild']:
+                    del grp['task_dep_wild']
+                    grp['task_dep'].append(prevg)
+            prevg = 'g%d' % g
+            g += 1
+        sel = [prevg] if prevg else None
+    # group entries must sit right before their first sub-task: they do by construction
+    for t in tasks:
+        if t['kind'] == 'group':
+            continue
+        r = rng.random()
+        if r < (p_fail if shape not in ('chain', 'ladder') else p_fail / 8.0):
+            t['outcome'] = rng.choice(['failed', 'error'])
+            t['how'] = rng.choice(['return', 'raise', 'object'])
+        elif r < p_fail + p_utd and not t['calc_dep']:
+            t['status'] = 'utd'
+        if rng.random() < 0.05:
+            t['teardown'] = True
+    if shape not in ('chain', 'ladder'):
+        order = [t for t in tasks if t['kind'] != 'group']
+        if shape != 'groups':
+            rng.shuffle(order)
+            tasks = order
+    case = {'tasks': tasks, 'sel': sel, 'cont': rng.random() < 0.8, 'always': False, 'runner': runner,
+            'nproc': 0 if runner == 'serial' else (nproc or rng.randint(2, 8)),
+            'policy': {'kind': 'seeded', 'seed': rng.randrange(1 << 30)}, 'bigcase': {'shape': shape, 'n': len(tasks)}}
+    case['model'] = expand(case)
     return case
 
 
@@ -563,6 +856,8 @@ def rename_tasks(case, mapping):
         case['combo'] = m(case['combo'])
     if case.get('ctf') is not None:
         case['ctf'] = m(case['ctf'])
+    if case.get('wild_calc') is not None:
+        case['wild_calc'] = m(case['wild_calc'])
 
 
 def apply_meta_names(case, rng, p_each=0.6):
@@ -614,7 +909,7 @@ def _all_deliver(model, case):
     res = []
     for t in case['tasks']:
         cr = t.get('calc_res')
-        res.append(None if cr is None else {'task': [idx[x] for x in cr.get('task_dep', [])],
+        res.append(None if cr is None else {'task': _res_task_ids(case, cr),
                                             'file': [own[f] for f in cr.get('file_dep', []) if f in own],
                                             'calc': [idx[x] for x in cr.get('calc_dep', [])]})
     m['calcRes'] = res
@@ -647,9 +942,37 @@ def count_case(st, case, obs=None):
         st.count('names:metachars')
     if case.get('combo') is not None:
         st.count('combo:calc+task+setup')
+    if any('*' in _x for _t in case['tasks'] for _x in (_t.get('calc_res') or {}).get('task_dep', [])):
+        st.count('wild_dep:delivered_by_calc_result')
+    if case.get('bigcase'):
+        _n = case['bigcase']['n']
+        st.count('scale:%s' % case['bigcase']['shape'])
+        st.count('scale:tasks_%s' % ('50-99' if _n < 100 else '100-199' if _n < 200 else '200+'))
+        if case['runner'] != 'serial':
+            st.count('scale:workers_%d' % case['nproc'])
     for _t in case['tasks']:
         if _t.get('calc_first'):
             st.count('calc_first:%s' % _t['outcome'])
+        for _p in _t.get('task_dep_wild') or ():
+            _k = len([1 for _x in case['tasks'] if fnmatch.fnmatch(_x['name'], _p)])
+            st.count('wild_dep:matches=%s' % (_k if _k < 3 else '3+'))
+            if _t['kind'] == 'group':
+                st.count('wild_dep:on_group')
+        if _t.get('n_actions'):
+            st.count('actions:%d' % _t['n_actions'])
+            if _t['outcome'] != 'ok':
+                _f = _t.get('fail_at', _t['n_actions'] - 1)
+                st.count('actions:fail_in_%s' % ('first' if _f == 0 else 'last' if _f >= _t['n_actions'] - 1 else 'middle'))
+        if _t.get('n_teardown'):
+            st.count('teardown_callables:%d' % _t['n_teardown'])
+        if _t.get('group_late'):
+            st.count('group:attributes_after_subtasks')
+        _cr = _t.get('calc_res') or {}
+        for _k in ('junk', 'setup', 'as_str'):
+            if _k in _cr:
+                st.count('calc_res:key_%s' % _k)
+        if 'uptodate' in _cr:
+            st.count('calc_res:uptodate_%s' % ('False' if False in _cr['uptodate'] else 'None'))
     if case.get('share'):
         st.count('share:lists')
         for _a in case['share'].get('attrs', ()):
@@ -853,6 +1176,7 @@ def _make_action(rec, n, t):
     outcome, how = t['outcome'], t.get('how', 'return')
     targets = list(t['targets'])
     res = dict(t['calc_res']) if t.get('calc_res') is not None else {}
+    as_str = bool(res.pop('as_str', False))
 
     def action():
         w = rec.who()
@@ -863,6 +1187,8 @@ def _make_action(rec, n, t):
                 fh.write('made by %d\n' % n)
         rec.ev(['end', n, w])
         if outcome == 'ok':
+            if as_str:
+                return 'task %d says: %r' % (n, sorted(res))      # a str result: task.values stays empty
             val = {'v': n}
             val.update(res)
             return val
@@ -879,30 +1205,28 @@ def _make_action(rec, n, t):
 
 
 def _make_actions(rec, n, t):
-    """the action list of task n.  Normally ONE python-action (_make_action).  'calc_first': two -- the first records
-    the start, passes the checkpoint and RETURNS the calc_res values (task.values is filled), the second creates the
-    targets, records the end and produces the oracle's outcome; when that is failed / error the task fails with
-    non-empty task.values, which doit still hands to the tasks that have it as calc_dep."""
-    if not t.get('calc_first'):
+    """the action list of task n.  Normally ONE python-action (_make_action).
+    'calc_first': two -- the first records the start, passes the checkpoint and RETURNS the calc_res values (task.values is
+    filled), the second creates the targets, records the end and produces the oracle's outcome; when that is failed /
+    error the task fails with non-empty task.values, which doit still hands to the tasks that have it as calc_dep.
+    'n_actions': k (2..3) -- action 0 records the start and passes the checkpoint; the DECIDING action (index 'fail_at'
+    when the outcome is failed / error, else the last) creates the targets, records the end and produces the outcome
+    (values incl. calc_res when ok); the actions between return partial values; an action after a failing deciding one
+    must never run: it records a second start / end pair, which every monitor and the model reject."""
+    if not t.get('calc_first') and not t.get('n_actions'):
         return [_make_action(rec, n, t)]
     outcome, how = t['outcome'], t.get('how', 'return')
     targets = list(t['targets'])
     res = dict(t['calc_res']) if t.get('calc_res') is not None else {}
+    as_str = bool(res.pop('as_str', False))
+    if t.get('calc_first'):
+        k, calc_at, decide = 2, 0, 1
+    else:
+        k = int(t['n_actions'])
+        decide = min(int(t.get('fail_at', k - 1)), k - 1) if outcome != 'ok' else k - 1
+        calc_at = k - 1
 
-    def first():
-        w = rec.who()
-        rec.ev(['start', n, w])
-        rec.checkpoint(n)
-        return dict(res)
-
-    def second():
-        w = rec.who()
-        for f in targets:
-            with open(f, 'w') as fh:
-                fh.write('made by %d\n' % n)
-        rec.ev(['end', n, w])
-        if outcome == 'ok':
-            return {'v': n}
+    def produce():
         from doit.exceptions import TaskFailed, TaskError
         if outcome == 'failed':
             if how == 'object':
@@ -911,15 +1235,45 @@ def _make_actions(rec, n, t):
         if how == 'object':
             return TaskError('oracle says error')
         raise RuntimeError('oracle says error')
-    first.__name__ = 'calc_%d' % n
-    second.__name__ = 'act_%d' % n
-    return [first, second]
+
+    def make(i):
+        def act():
+            w = rec.who()
+            if i == 0:
+                rec.ev(['start', n, w])
+                rec.checkpoint(n)
+            if i > decide:
+                rec.ev(['start', n, w])          # an action after the failing one: must never happen
+                rec.ev(['end', n, w])
+                return None
+            val = {}
+            if i == calc_at and not as_str:
+                val.update(res)
+            if i < decide:
+                if as_str:
+                    return None
+                if i != calc_at:
+                    val['v'] = -1 - i            # overwritten by the deciding action's value
+                return val
+            for f in targets:
+                with open(f, 'w') as fh:
+                    fh.write('made by %d\n' % n)
+            rec.ev(['end', n, w])
+            if outcome != 'ok':
+                return produce()
+            if as_str:
+                return 'task %d says nothing' % n          # a str result: task.values stays empty
+            val['v'] = n
+            return val
+        act.__name__ = ('calc_%d' if (t.get('calc_first') and i == 0) else 'act_%d') % n + ('_%d' % i if i else '')
+        return act
+    return [make(i) for i in range(k)]
 
 
-def _make_teardown(rec, n):
+def _make_teardown(rec, n, k=0):
     def teardown():
         if rec.td_events:
-            rec.ev(['td_run', n, rec.who()])
+            rec.ev(['td_run', n, rec.who()] + ([k] if k else []))
     return teardown
 
 
@@ -939,12 +1293,32 @@ def build_namespace(case, rec):
             return pool.setdefault((k, tuple(values)), list(values))
         return list(values)
 
+    def dep_list(t):
+        # patterns first: doit appends what they match AFTER the literal names
+        return lst('task_dep', list(t.get('task_dep_wild') or ()) + list(t['task_dep']))
+
     def task_gen():
+        late = {}      # group name -> [sub-tasks still to yield before the group's own dict, the dict]
         for n, t in enumerate(tasks):
             if t['kind'] == 'group':
-                if t['task_dep']:
-                    yield {'basename': t['name'], 'name': None, 'task_dep': lst('task_dep', t['task_dep'])}
+                if t['task_dep'] or t.get('task_dep_wild'):
+                    gd = {'basename': t['name'], 'name': None, 'task_dep': dep_list(t)}
+                    if t.get('group_late'):
+                        late[t['name']] = [int(t['group_late']), gd]
+                    else:
+                        yield gd
                 continue
+            for d in one_task(n, t):
+                yield d
+            if t['kind'] == 'sub' and t['group'] in late:
+                late[t['group']][0] -= 1
+                if late[t['group']][0] <= 0:
+                    yield late.pop(t['group'])[1]
+        for g in sorted(late):             # fewer sub-tasks than announced: at the end
+            yield late[g][1]
+
+    def one_task(n, t):
+        if True:
             d = {'actions': _make_actions(rec, n, t)}
             if t['kind'] == 'sub':
                 d['basename'] = t['group']
@@ -952,7 +1326,9 @@ def build_namespace(case, rec):
             else:
                 d['basename'] = t['name']
             for k in ('task_dep', 'setup', 'calc_dep', 'file_dep', 'targets'):
-                if t[k] or (k in share_attrs and share.get('empty')):
+                if k == 'task_dep' and t.get('task_dep_wild'):
+                    d[k] = dep_list(t)
+                elif t[k] or (k in share_attrs and share.get('empty')):
                     d[k] = lst(k, t[k])
             upt = []
             if t['status'] == 'utd':
@@ -964,7 +1340,7 @@ def build_namespace(case, rec):
             if t['getargs']:
                 d['getargs'] = {a: (src, key) for a, src, key in t['getargs']}
             if t['teardown']:
-                d['teardown'] = [_make_teardown(rec, n)]
+                d['teardown'] = [_make_teardown(rec, n, k) for k in range(int(t.get('n_teardown') or 1))]
             yield d
     return {'task_gen': task_gen,
             'DOIT_CONFIG': {'dep_file': 'db.json', 'backend': 'json', 'verbosity': 0, 'reporter': RecReporter}}
@@ -1684,9 +2060,12 @@ def _drop_task(case, name):
         t['file_dep'] = [f for f in t['file_dep'] if f not in gone_files]
         t['getargs'] = [g for g in t['getargs'] if g[1] not in gone]
         if t['calc_res'] is not None:
-            t['calc_res'] = {'task_dep': [x for x in t['calc_res'].get('task_dep', []) if x not in gone],
-                             'file_dep': [f for f in t['calc_res'].get('file_dep', []) if f not in gone_files],
-                             'calc_dep': [x for x in t['calc_res'].get('calc_dep', []) if x not in gone]}
+            t['calc_res'] = dict(t['calc_res'],
+                                 task_dep=[x for x in t['calc_res'].get('task_dep', []) if x not in gone],
+                                 file_dep=[f for f in t['calc_res'].get('file_dep', []) if f not in gone_files],
+                                 calc_dep=[x for x in t['calc_res'].get('calc_dep', []) if x not in gone])
+            if 'setup' in t['calc_res']:
+                t['calc_res']['setup'] = [x for x in t['calc_res']['setup'] if x not in gone]
     # a group entry must still sit right before its first sub-task
     fixed = []
     groups = {t['name']: t for t in c['tasks'] if t['kind'] == 'group'}
@@ -1732,6 +2111,21 @@ def _variants(case):
             c = clone()
             del c['tasks'][i]['calc_first']
             yield c
+        for k in ('n_actions', 'n_teardown', 'group_late'):
+            if t.get(k):
+                c = clone()
+                del c['tasks'][i][k]
+                c['tasks'][i].pop('fail_at', None) if k == 'n_actions' else None
+                yield c
+        for j in range(len(t.get('task_dep_wild') or ())):
+            c = clone()
+            del c['tasks'][i]['task_dep_wild'][j]
+            yield c
+        for k in ('uptodate', 'junk', 'setup', 'as_str'):
+            if t['calc_res'] is not None and k in t['calc_res']:
+                c = clone()
+                del c['tasks'][i]['calc_res'][k]
+                yield c
         if t['calc_res'] is not None:
             c = clone()
             c['tasks'][i]['calc_res'] = None
@@ -1802,14 +2196,24 @@ def render(case):
     lines = []
     for n, t in enumerate(case['tasks']):
         if t['kind'] == 'group':
-            extra = (' task_dep=%s' % t['task_dep']) if t['task_dep'] else ''
+            extra = (' task_dep=%s' % (list(t.get('task_dep_wild') or ()) + t['task_dep'])) \
+                if (t['task_dep'] or t.get('task_dep_wild')) else ''
+            if t.get('group_late'):
+                extra += ' (group attributes yielded after %d sub-tasks)' % t['group_late']
             lines.append('#%d %-8s (group task; no actions)%s%s' % (n, t['name'], extra,
                                                                      '  [IGNORED]' if t['ignored'] else ''))
             continue
         parts = []
         for k in ('task_dep', 'setup', 'calc_dep', 'result_dep', 'file_dep', 'targets'):
-            if t[k]:
+            if k == 'task_dep' and t.get('task_dep_wild'):
+                parts.append('task_dep=%s' % (list(t['task_dep_wild']) + t[k]))
+            elif t[k]:
                 parts.append('%s=%s' % (k, t[k]))
+        if t.get('n_actions'):
+            parts.append('actions=%d%s' % (t['n_actions'], (' (fails in #%d)' % t['fail_at']) if 'fail_at' in t and
+                                           t['outcome'] != 'ok' else ''))
+        if t.get('n_teardown'):
+            parts.append('teardown_callables=%d' % t['n_teardown'])
         if t['getargs']:
             parts.append('getargs={%s}' % ', '.join('%s: (%s, %s)' % tuple(g) for g in t['getargs']))
         if t['status'] == 'utd':
@@ -1823,7 +2227,7 @@ def render(case):
             orc.append('action %s(%s)' % (t['outcome'], t['how']))
         if t['calc_res'] is not None:
             orc.append('%s returns %s' % ('FIRST of two actions' if t.get('calc_first') else 'action',
-                                          {k: v for k, v in t['calc_res'].items() if v}))
+                                          {k: v for k, v in t['calc_res'].items() if v or k == 'uptodate'}))
         if t['teardown']:
             orc.append('teardown')
         lines.append('#%d %-8s %s%s' % (n, t['name'], ' '.join(parts), ('   [' + '; '.join(orc) + ']') if orc else ''))
@@ -1874,10 +2278,10 @@ def _deps_at(model, case, trace, t, upto):
             continue
         done.add(c)
         cr = case['tasks'][c].get('calc_res')
-        if cr is None or c not in succeeded:
+        if cr is None or cr.get('as_str') or c not in succeeded:
             continue
-        for x in cr.get('task_dep', []):
-            deps.add(idx[x])
+        for x in _res_task_ids(case, cr):
+            deps.add(x)
         for f in cr.get('file_dep', []):
             if f in own:
                 deps.add(own[f])
@@ -1964,9 +2368,9 @@ def closure_of(case, trace):
                 calcs += res_fail[c]['calc']
                 continue
             cr = case['tasks'][c].get('calc_res')
-            if cr is None or c not in succeeded:
+            if cr is None or cr.get('as_str') or c not in succeeded:
                 continue
-            new += [idx[x] for x in cr.get('task_dep', [])]
+            new += _res_task_ids(case, cr)
             new += [own[f] for f in cr.get('file_dep', []) if f in own]
             for x in cr.get('calc_dep', []):
                 new.append(idx[x])
@@ -2096,6 +2500,39 @@ def sig_dup_selection(witness):
     return m['C02_at_most_once'] and m['C02_inside_closure'] and m['C02_all_processed']
 
 
+def strip_calc_wildcards(case):
+    """the case as doit really treats it: wildcard entries of delivered task_deps removed"""
+    c = json.loads(json.dumps({k: v for k, v in case.items() if k != 'model'}))
+    hit = False
+    for t in c['tasks']:
+        cr = t.get('calc_res')
+        if cr and any('*' in x for x in cr.get('task_dep', [])):
+            cr['task_dep'] = [x for x in cr['task_dep'] if '*' not in x]
+            hit = True
+    if not hit:
+        return None
+    c['model'] = expand(c)
+    return c
+
+
+def sig_calc_wild_dropped(witness):
+    """SIGNATURE of the open finding `calc-wild-dep-dropped`: a calc result of the case delivers a task_dep with `*`,
+    and judged against the case WITHOUT those entries (what doit does: the pattern lands in Task.wild_dep, which is
+    only expanded at start-up) the same trace satisfies every C01 and C02 monitor"""
+    c2 = strip_calc_wildcards(witness.get('case') or {})
+    if c2 is None:
+        return False
+    tr = witness.get('trace') or []
+    m1 = py_monitor_c01(c2, tr)
+    m2 = py_monitor_c02(c2, tr, witness.get('exit'), witness.get('err'))
+    return bool(m1['C01_order'] and m1['C01_no_overlap'] and m2['C02_at_most_once'] and m2['C02_inside_closure']
+                and (m2['C02_all_processed'] or witness.get('err') is not None))
+
+
+def known_sig(witness):
+    return (bool(sig_dup_selection(witness)), bool(sig_calc_wild_dropped(witness)))
+
+
 def make_witness(case, obs, failed, py, lean, detail):
     return {'case': {k: v for k, v in case.items() if k != 'model'} | {'schedule': obs.get('schedule')},
             'rendered': render(case).split('\n'), 'trace': obs['trace'], 'trace_text': render_trace(case, obs['trace']),
@@ -2132,7 +2569,7 @@ def judge(prop, case, obs, ans, st, shrink_left):
     if failed:
         first = failed[0]
         wit0 = make_witness(case, obs, failed, py, lean, pywit)
-        known0 = sig_dup_selection(wit0)
+        known0 = known_sig(wit0)
 
         def still(c):
             o = run_impl(c, keep_raw=False)
@@ -2142,7 +2579,7 @@ def judge(prop, case, obs, ans, st, shrink_left):
                 bad = bad or ['C02_all_processed']
             if first not in bad:
                 return False
-            return sig_dup_selection(make_witness(c, o, bad, p, None, w)) == known0
+            return known_sig(make_witness(c, o, bad, p, None, w)) == known0
         small = case
         if shrink_left > 0 and (not py.get(first, True) or obs['err']):
             t0 = time.time()
@@ -2185,6 +2622,19 @@ def judge(prop, case, obs, ans, st, shrink_left):
             st.divergence(make_witness(case, obs, disagree, py, lean, pywit),
                           'python and Lean monitors disagree on %s' % disagree)
         elif not ans.get('accepted') and not ans.get('skipped'):
+            c2 = strip_calc_wildcards(case)
+            if c2 is not None:
+                # open finding calc-wild-dep-dropped: doit ignores a wildcard inside a delivered task_dep.  When the
+                # model accepts the trace for the case WITHOUT those entries, this run shows exactly that defect (here
+                # without a monitor turning false: the matching tasks happened to be processed anyway)
+                a2 = ask_model([(c2, obs)])[0]
+                if 'error' not in a2 and a2.get('accepted'):
+                    st.count('known_shape:calc_wild_dep_dropped_by_doit')
+                    st.violation(make_witness(case, obs, [], py, lean, {'wildcard_in_calc_result_ignored': True}),
+                                 'correspondence:calc-wild-dep-dropped',
+                                 'the implementation trace is one of the model only when the wildcard task_dep a calc '
+                                 'task delivered is ignored')
+                    return used
             w = make_witness(case, obs, [], py, lean, {})
             w['matched'] = ans.get('matched')
             w['expected'] = ans.get('expected')
@@ -2235,7 +2685,8 @@ def eval_batch(batch):
         rng = random.Random(seed)
         knobs = dict(knobs)
         pol = knobs.pop('gen_policy', False)
-        c = gen_case(rng, **knobs)
+        big = knobs.pop('bigcase', None)
+        c = gen_scale_case(rng, runner=knobs.get('runner', 'thread'), **big) if big is not None else gen_case(rng, **knobs)
         if pol and c['runner'] == 'thread':
             c['policy'] = gen_policy(rng, c['nproc'])
         c['seed'] = seed
@@ -2370,6 +2821,8 @@ def replay_witness(prop, data):
         print('FAILED monitors:', bad)
         if sig_dup_selection(make_witness(case, obs, [b for b in bad if b in keys], py, lean, wit)):
             print('(this is the open known finding dup-selection-truncates)')
+        if sig_calc_wild_dropped(make_witness(case, obs, [b for b in bad if b in keys], py, lean, wit)):
+            print('(this is the open known finding calc-wild-dep-dropped)')
     if lean is not None and not bad:
         print('model accepts the trace:', ans.get('accepted'), '' if ans.get('accepted') else
               '(matched %s, model could emit %s)' % (ans.get('matched'), ans.get('expected')))
